@@ -12,7 +12,7 @@
     the model; [plan_core ideal stock vmax min_transfer] is the planner behind the argument checks of
     [dilution_plan] (C14_dilution_plan); volumes are integers (type Z) by construction. *)
 From Robo Require Import Prelude Str Wells Utils Labware Tips Records Partition Params Worklist EvoCmd
-  Program Dilution Invariants DilutionProofs DilutionExecProofs CtorProofs.
+  Program Dilution Invariants Mixing DilutionProofs DilutionExecProofs CtorProofs MixingProofs.
 
 (** the instruction for column c; planned volume, reported concentration and target of well (r, c) *)
 Definition no_instr : instr := {| i_col := 0; i_steps := 0; i_src := None; i_vols := [] |}.
@@ -342,12 +342,12 @@ Definition requested_from (k : nat) (ops : list op) : Q :=
 (** The operations of a plan request exactly v_stock from the stock labware and
     R * sum vmax - (all planned volumes) = v_diluent - (serial volumes) <= v_diluent from the diluent.
 
-    Not proved here (it needs the volume ledger of Labware lifted through [transfer], i.e. through
-    plan / exec / aspirate / dispense): if [to_worklist s a p C = (s', None)] on a plate that is empty
-    in the used region, then well (r, c) of the plate holds exactly
+    The state-level counterpart (volumes actually moved, via the volume ledger of [transfer]) is
+    C14_exec_volumes at the end of this file: after [to_worklist s a p C = (s', None)] on a plate that
+    is empty in the used region, well (r, c) of the plate holds exactly
     [vmax c - drawn_from p c r - (v_destination if a destination is given)], the stock column lost
-    exactly [v_stock p] and the diluent column exactly the second sum.  C14_exec_example checks this
-    on a concrete run. *)
+    exactly [v_stock p] and the diluent column exactly the second sum; C14_exec_concentration gives
+    the tracked composition.  C14_exec_example checks this on a concrete run. *)
 Theorem C14_exec_requested : forall ideal stock vmax mt p R a gs gd wms,
   plan_core ideal stock vmax mt = Ok p -> rows R ideal ->
   length vmax = length ideal -> tw_R a = R ->
@@ -594,3 +594,54 @@ Example C14_exec_negative_max_example :
   | _, _, _, _ => None
   end = Some ([[0; 0]; [20000]; [20000]], None, 360%Z).
 Proof. vm_compute. reflexivity. Qed.
+
+(* ------------------------------------------------------------------------------------------ *)
+(** * the tracked composition after [to_worklist] *)
+
+(** Under the hypotheses of C14_exec_volumes, with every vmax positive, the mixing invariant of C05 for
+    the initial labware ([st_inv], established by the constructors and kept by every operation), the
+    stock column consisting 100 % of component [k] and the diluent column containing none of it: the
+    fraction of [k] that the plate reports for well (r, c) after the run, times the stock
+    concentration, is the concentration x[c][r] reported by the plan ([frac L k i] is the entry of
+    the component table of [L], Spec/Mixing.v).  Follows the execution instruction by instruction:
+    a column is filled from the stock or from an already finished column, filled up with diluent,
+    mixed (a well onto itself: no change), and afterwards only gives liquid away. *)
+Theorem C14_exec_concentration : forall ideal stock vmax mt p R a C s s' P St D k,
+  plan_core ideal stock vmax mt = Ok p -> rows R ideal -> length vmax = length ideal -> tw_R a = R ->
+  all_pos vmax ->
+  to_worklist s a p C = (s', None) -> wf_state s -> st_inv s -> (0 < w_max (st_wl s))%Q ->
+  tw_plate a <> tw_stock a -> tw_plate a <> tw_diluent a -> tw_stock a <> tw_diluent a ->
+  (forall d, tw_dest a = Some d -> d <> tw_plate a /\ d <> tw_stock a /\ d <> tw_diluent a) ->
+  nth_error (st_lw s) (tw_plate a) = Some P -> nth_error (st_lw s) (tw_stock a) = Some St ->
+  nth_error (st_lw s) (tw_diluent a) = Some D ->
+  is_trough (lw_geom P) = false ->
+  (forall r c, (r < R)%nat -> (c < length ideal)%nat -> (vol_at P (r * g_cols (lw_geom P) + c) == 0)%Q) ->
+  (frac St k (tw_stock_column a) == 1)%Q -> (frac D k (tw_diluent_column a) == 0)%Q ->
+  exists P', nth_error (st_lw s') (tw_plate a) = Some P' /\
+    forall r c, (r < R)%nat -> (c < length ideal)%nat ->
+      (frac P' k (r * g_cols (lw_geom P) + c) * stock == conc p c r)%Q.
+Proof. exact c14_exec_concentration. Qed.
+Print Assumptions C14_exec_concentration.
+
+(** the additional hypotheses hold for the run of C14_exec_example; the reported fractions of the
+    component "stock" (in %, row-major) are the planned concentrations *)
+Example C14_exec_concentration_example : forall P St D,
+  ex_plate 2 4 300 = Ok P -> ex_trough "stock" = Ok St -> ex_trough "water" = Ok D ->
+  let s := {| st_lw := [P; St; D]; st_wl := init_wl Evo 950 true false |} in
+  st_inv s /\ all_pos [200; 200; 200; 200] /\
+  frac St "stock" 0 == 1 /\ frac D "stock" 0 == 0 /\
+  match nth_error (st_lw (fst (to_worklist s (ex_args 2) ex_plan 4))) 0 with
+  | Some P' => map (fun i => Qred (frac P' "stock" i * 100)) (seq 0 8) = [100; 50; 10; 2; 80; 40; 8; 1]
+  | None => False
+  end.
+Proof.
+  intros P St D HP HSt HD s.
+  split.
+  { repeat apply Forall_cons;
+      [exact (mk_labware_mix_inv _ _ HP)|exact (mk_trough_mix_inv _ _ HSt)|exact (mk_trough_mix_inv _ _ HD)
+      |apply Forall_nil]. }
+  split; [repeat constructor|].
+  subst s. vm_compute in HP, HSt, HD. injection HP as <-. injection HSt as <-. injection HD as <-.
+  split; [vm_compute; reflexivity|]. split; [vm_compute; reflexivity|].
+  vm_compute. reflexivity.
+Qed.
